@@ -172,7 +172,12 @@ pub fn run(rng: &mut Rng, n: usize, out: &mut Out, which: &str) {
                 case += 1;
                 out.op(&format!("case {}", case), "ok");
                 fresh_keys(&mut st, out, "eng.new");
-                let ncmds = 1 + rng.below(4);
+                // one case in five is the scenario "game A, something else B, game A again (same list or more moves)";
+                // A is a startpos game half of the time and a FEN game otherwise
+                let back_scenario = which == "c04" && rng.chance(1, 5);
+                let back_startpos = rng.chance(1, 2);
+                if back_scenario { out.count("scenario_game_other_game_again"); }
+                let ncmds = if back_scenario { 3 } else { 1 + rng.below(4) };
                 // the previous command of this engine (start, was it startpos, moves): GUIs send the whole game again with one
                 // more move, take moves back, or start another game from the same position — related commands in a row
                 let mut prev: Option<(Board, bool, Vec<Move>)> = None;
@@ -183,8 +188,8 @@ pub fn run(rng: &mut Rng, n: usize, out: &mut Out, which: &str) {
                     // start: startpos, corpus FEN, or a generated valid position; counters from the interesting set
                     // a new game between two commands now and then; the command after it usually repeats or extends the previous
                     // game (what a GUI does when the same opening is played again)
-                    let newgame = which == "c04" && ci > 0 && rng.chance(1, 3);
-                    let related = if which == "c04" && prev.is_some() && (if newgame { rng.chance(3, 4) } else { rng.chance(3, 5) }) { if newgame { *rng.pick(&[1u64, 1, 5, 5, 2, 3]) } else { 1 + rng.below(5) } } else { 0 };
+                    let newgame = which == "c04" && ci > 0 && !back_scenario && rng.chance(1, 3);
+                    let related = if back_scenario { if ci == 2 { *rng.pick(&[1u64, 1, 5]) } else { 0 } } else if which == "c04" && prev.is_some() && (if newgame { rng.chance(3, 4) } else { rng.chance(3, 5) }) { if newgame { *rng.pick(&[1u64, 1, 5, 5, 2, 3]) } else { 1 + rng.below(5) } } else { 0 };
                     if newgame {
                         out.run(&mut st, &format!("eng.pos {} | ucinewgame", board_text(&Board::default())));
                         // the engine has drawn new hash keys: tell the model which
@@ -192,12 +197,12 @@ pub fn run(rng: &mut Rng, n: usize, out: &mut Out, which: &str) {
                         out.run(&mut st, &format!("eng.keys {}", keys));
                         out.count("ucinewgame_between_position_commands");
                     }
-                    let mut use_startpos = rng.chance(1, 3);
+                    let mut use_startpos = if back_scenario { (ci == 0) == back_startpos } else { rng.chance(1, 3) };
                     let mut start = if use_startpos { Board::default() } else if rng.chance(1, 2) { Board::new(*rng.pick(posgen::CORPUS)) } else { g.valid_position(rng, out) };
                     let mut forced_prefix: Vec<Move> = Vec::new();
                     let mut replay_tail: Vec<Move> = Vec::new();
                     if related > 0 {
-                        let back = prev2.is_some() && rng.chance(2, 5);
+                        let back = prev2.is_some() && (back_scenario || rng.chance(2, 5));
                         if back { out.count("related_to_the_command_before_last"); }
                         let (ps, pu, pm) = if back { prev2.clone().unwrap() } else { prev.clone().unwrap() };
                         start = ps;
@@ -219,7 +224,7 @@ pub fn run(rng: &mut Rng, n: usize, out: &mut Out, which: &str) {
                     let long = rng.chance(1, 8);
                     // ... and, rarely, a game of more than a thousand plies in one command (fixed-size buffers, counters)
                     let very_long = which == "c04" && rng.chance(1, 60);
-                    let plies = if which == "c09" { 4 + rng.below(14) } else { rng.below(if long { 200 } else { 30 }) };
+                    let plies = if which == "c09" { 4 + rng.below(14) } else if back_scenario { 1 + rng.below(8) } else { rng.below(if long { 200 } else { 30 }) };
                     let mut b = start;
                     let mut played: Vec<Move> = Vec::new();
                     for m in &forced_prefix {
@@ -328,11 +333,24 @@ pub fn run(rng: &mut Rng, n: usize, out: &mut Out, which: &str) {
                             let a = out.run(&mut st, "eng.go 1");
                             let f: Vec<&str> = a.split_whitespace().collect();
                             if !f.is_empty() { out.run(&mut st, &format!("eng.judge1 {}", f[0])); }
+                            let mut deeper0: u64 = out.run(&mut st, "eng.deeper").parse().unwrap_or(0);
                             out.count("depth1_searches_with_history_judged");
                             if any_third { out.count("depth1_searches_with_a_third_occurrence_successor"); }
                             // deeper searches on the same engine: model tie (node counts) with the history in place
                             for d in 2..=5u8 {
-                                if crate::csearch::nodes_capped(&b, d, if d <= 3 { 20000 } else { 12000 }) < (if d <= 3 { 20000 } else { 12000 }) { out.run(&mut st, &format!("eng.go {}", d)); out.count("deeper_searches_with_history_tied"); if d >= 4 { out.count("depth_4_5_searches_with_history_tied"); } }
+                                if crate::csearch::nodes_capped(&b, d, if d <= 3 { 20000 } else { 12000 }) < (if d <= 3 { 20000 } else { 12000 }) {
+                                    let a = out.run(&mut st, &format!("eng.go {}", d));
+                                    out.count("deeper_searches_with_history_tied"); if d >= 4 { out.count("depth_4_5_searches_with_history_tied"); }
+                                    // ... and judged against minimax-with-draws when no deeper record was reused (theorem C09Search)
+                                    let deeper1: u64 = out.run(&mut st, "eng.deeper").parse().unwrap_or(0);
+                                    let f: Vec<&str> = a.split_whitespace().collect();
+                                    if !f.is_empty() && d <= 4 {
+                                        let delta = deeper1.saturating_sub(deeper0);
+                                        out.run(&mut st, &format!("eng.judged {} {} {}", d, f[0], delta));
+                                        out.count(if delta == 0 { "deeper_searches_with_history_judged" } else { "deeper_searches_with_history_not_judged_deeper_record_reused" });
+                                    }
+                                    deeper0 = deeper1;
+                                }
                             }
                         } else { out.count("history_search_skipped_large_quiescence"); }
                     }
